@@ -664,6 +664,13 @@ func runCase(rec *recorder, in *input, expectAccept bool, g int, rng *rand.Rand,
 	add("copied", mkCopied(in), nil)
 	js, e2 := mkJSON(in)
 	add("json", js, e2)
+	// the same block with its timestamp in another in-memory representation (tsrep.go)
+	rep := tsReps[ci.n%len(tsReps)]
+	tv, e3 := mkTimestamp(in, rep)
+	if e3 != nil {
+		return st, e3
+	}
+	add(rep.name, tv, nil)
 	st.variants["orig"]++
 	// a copy that fails the block-level checks only (miner payout off by one): here the per-transaction path and
 	// ValidateBlock legitimately disagree, so the path is logged under its own key
@@ -686,6 +693,14 @@ func runCase(rec *recorder, in *input, expectAccept bool, g int, rng *rand.Rand,
 			reps = 2 // the same function twice on the same memory
 		}
 		for r := 0; r < reps; r++ {
+			tasks = append(tasks, task{"header", v, doHeader})
+			if strings.HasPrefix(v.kind, "ts") {
+				tasks = append(tasks, task{"validate", v, doValidate}, task{applyFn, v, doApply})
+				if expectAccept {
+					tasks = append(tasks, task{"revert", v, doRevert})
+				}
+				continue
+			}
 			tasks = append(tasks, task{"validate", v, doValidate}, task{"txnpath", v, doTxnPath}, task{"elements", v, doElements}, task{"encode", v, doEncode},
 				task{"hashes", v, func(in *input) outcome { return doHashes(in, true) }})
 			if v.kind == "blocklevel" {
